@@ -108,6 +108,11 @@ package xlsx
 //@   loop 9:
 //@     invariant same(sheet.Name, name) && sheet.Index == index && sheet.MaxRow == maxRow - 1 && sheet.MaxCol == maxCol && len(sheet.Rows) == maxRow
 //@     invariant forall k int :: {sheet.Rows[k]} 0 <= k && k < len(sheet.Rows) ==> len(sheet.Rows[k]) == maxCol + 1
+//@     step covered_cell_is_marked_merged: sheet.Rows[row][prev(col)].IsMerged
+//@     step top_left_is_the_root: row == mr.StartRow && prev(col) == mr.StartCol ==> sheet.Rows[row][prev(col)].IsMergeRoot && sheet.Rows[row][prev(col)].MergeRows == mr.EndRow - mr.StartRow + 1 && sheet.Rows[row][prev(col)].MergeCols == mr.EndCol - mr.StartCol + 1
+//@     step covered_cells_are_not_roots: !(row == mr.StartRow && prev(col) == mr.StartCol) ==> sheet.Rows[row][prev(col)].IsMergeRoot == prev(sheet.Rows)[row][prev(col)].IsMergeRoot && sheet.Rows[row][prev(col)].MergeRows == prev(sheet.Rows)[row][prev(col)].MergeRows
+//@     step value_kept: sheet.Rows[row][prev(col)].Value == prev(sheet.Rows)[row][prev(col)].Value && sheet.Rows[row][prev(col)].Type == prev(sheet.Rows)[row][prev(col)].Type
+//@     step no_other_cell_is_touched: forall a int, b int :: {sheet.Rows[a][b]} 0 <= a && a < len(sheet.Rows) && 0 <= b && b <= maxCol && !(a == row && b == prev(col)) ==> sheet.Rows[a][b] == prev(sheet.Rows)[a][b]
 
 // every declared relationship is recorded under its id (so that sheets are resolved by declaration, never by the
 // positional file-name fallback, whenever the workbook declares them)
